@@ -143,7 +143,7 @@ def gen_ops(info, tier, r):
         vals = [v for _, v in info["enums"][FUNCS[which][1]]]
         seq = [max(vals) + 1, max(vals) + 2, -1, -2, 2 ** 31 - 1, -2 ** 31, 2 ** 32 - 1, 2 ** 31]
         seq += list(range(-1000, 1001))
-        n = 200 if tier == "quick" else 4000
+        n = 1500 if tier == "quick" else 30000
         for _ in range(n):
             x = r.random()
             if x < 0.5:
@@ -166,6 +166,12 @@ def run(pid, tier):
     if info is None:
         return rep.finish()
     proved = vlib.prove(rep, MODULES, THEOREMS, extra_targets=["constdriver"])
+    if proved and tier == "thorough":
+        ok, log = vlib.leanchecker(MODULES[0])
+        rep.cov["leanchecker"] = "ok" if ok else "FAILED"
+        if not ok:
+            proved = False
+            rep.build_log = log
     drv = ensure_driver(rep)
     if drv is None:
         return rep.finish()
